@@ -22,6 +22,13 @@ type Env struct {
 	resolve    func(name string) (Term, Ty, bool)
 	macroDepth int
 	freshFloor string
+	reidx      map[string]reidxInfo
+}
+
+// reidxInfo: bound variable re-indexed to the absolute element index of one slice (DESIGN §2.13 rule 8).
+type reidxInfo struct {
+	slice string // String() of the slice expression
+	k     string // absolute index variable
 }
 
 func (e *Env) with(name string, b Binding) *Env {
@@ -171,6 +178,11 @@ func (e *Env) trIdent(name string) (Term, Ty) {
 	if b, ok := e.vars[name]; ok {
 		return b.T, b.Ty
 	}
+	if name == "$i" && e.resolve != nil {
+		if t, ty, ok := e.resolve(name); ok {
+			return t, ty
+		}
+	}
 	if strings.HasPrefix(name, "$") {
 		// scalar ghost variable
 		key, es, gf := g.ghostField(name)
@@ -235,6 +247,11 @@ func (e *Env) addrOf(x Expr) (string, types.Type) {
 		s, ty := e.tr(x.X)
 		i, _ := e.tr(x.I)
 		if sl, ok := ty.G.Underlying().(*types.Slice); ok {
+			if id, ok := x.I.(*EIdent); ok {
+				if ri, ok := e.reidx[id.Name]; ok && ri.slice == x.X.String() {
+					return fmt.Sprintf("(Elem (sarr %s) %s)", s.S, ri.k), sl.Elem()
+				}
+			}
 			return fmt.Sprintf("(Elem (sarr %s) (+ (soff %s) %s))", s.S, s.S, i.S), sl.Elem()
 		}
 		if p, ok := ty.G.Underlying().(*types.Pointer); ok {
@@ -376,17 +393,7 @@ func (e *Env) trSel(x *ESel) (Term, Ty) {
 	base, bty := e.tr(x.X)
 	if strings.HasPrefix(x.Sel, "$") {
 		key, es, gf := g.ghostField(x.Sel)
-		var a string
-		switch base.Sort {
-		case SRef:
-			a = base.S
-		case SIface:
-			a = "(iref " + base.S + ")"
-		case SSlice:
-			a = "(sarr " + base.S + ")"
-		default:
-			g.fail("ghost field %s on value of sort %s", x.Sel, base.Sort)
-		}
+		a := e.ghostBase(base, x.X, x.Sel)
 		h := g.heap(e.st, key, es)
 		return Term{sel(h.S, a), es}, g.W.resolveType(gf.Pkg, gf.Type, g)
 	}
@@ -408,6 +415,11 @@ func (e *Env) trIndex(x *EIndex) (Term, Ty) {
 		switch u := ty.G.Underlying().(type) {
 		case *types.Slice:
 			a := fmt.Sprintf("(Elem (sarr %s) (+ (soff %s) %s))", s.S, s.S, i.S)
+			if id, ok := x.I.(*EIdent); ok {
+				if ri, ok := e.reidx[id.Name]; ok && ri.slice == x.X.String() {
+					a = fmt.Sprintf("(Elem (sarr %s) %s)", s.S, ri.k)
+				}
+			}
 			return g.load(e.st, a, u.Elem()), goTy(u.Elem())
 		case *types.Array:
 			return Term{sel(s.S, i.S), g.sortOf(u.Elem())}, goTy(u.Elem())
@@ -548,12 +560,34 @@ func (e *Env) trQuant(x *EQuant) (Term, Ty) {
 	g := e.g
 	sub := e
 	var decls []string
+	var autoPats []string
 	for _, v := range x.Vars {
 		ty := g.W.resolveType(e.pkg, v.Type, g)
 		s := g.tySort(ty)
 		nm := "q_" + clean(v.Name)
 		decls = append(decls, "("+nm+" "+s+")")
 		sub = sub.with(v.Name, Binding{Term{nm, s}, ty})
+		if s == SInt && len(x.Trig) == 0 {
+			// re-index: if v is used as the direct index of exactly one slice expression, quantify over the
+			// absolute index of its backing array so that the trigger is arithmetic-free
+			if sl := soleIndexedSlice(x.Body, v.Name); sl != nil && !mentions(sl, boundNames(x)) {
+				if st, sty := sub.tr(sl); st.Sort == SSlice && sty.G != nil {
+					n2 := *sub
+					n2.reidx = map[string]reidxInfo{}
+					for k2, v2 := range sub.reidx {
+						n2.reidx[k2] = v2
+					}
+					n2.reidx[v.Name] = reidxInfo{slice: sl.String(), k: nm}
+					n2.vars = map[string]Binding{}
+					for k2, v2 := range sub.vars {
+						n2.vars[k2] = v2
+					}
+					n2.vars[v.Name] = Binding{Term{"(- " + nm + " (soff " + st.S + "))", SInt}, ty}
+					sub = &n2
+					autoPats = append(autoPats, "(Elem (sarr "+st.S+") "+nm+")")
+				}
+			}
+		}
 	}
 	body := sub.trBool(x.Body)
 	pat := ""
@@ -565,6 +599,9 @@ func (e *Env) trQuant(x *EQuant) (Term, Ty) {
 		}
 		pat += " :pattern (" + strings.Join(ps, " ") + ")"
 	}
+	if pat == "" && len(autoPats) == len(x.Vars) && len(autoPats) > 0 {
+		pat = " :pattern (" + strings.Join(autoPats, " ") + ")"
+	}
 	if pat != "" {
 		body = "(! " + body + pat + ")"
 	}
@@ -573,6 +610,76 @@ func (e *Env) trQuant(x *EQuant) (Term, Ty) {
 		q = "exists"
 	}
 	return Term{"(" + q + " (" + strings.Join(decls, " ") + ") " + body + ")", SBool}, specBool
+}
+
+func boundNames(x *EQuant) map[string]bool {
+	m := map[string]bool{}
+	for _, v := range x.Vars {
+		m[v.Name] = true
+	}
+	return m
+}
+
+func mentions(e Expr, names map[string]bool) bool {
+	for _, n := range exprIdents(e) {
+		if names[n] {
+			return true
+		}
+	}
+	return false
+}
+
+// soleIndexedSlice returns the slice expression s if every direct use "s[v]" of v as an index is on the same s
+// (and there is at least one); nil otherwise.
+func soleIndexedSlice(body Expr, v string) Expr {
+	var found Expr
+	ok := true
+	var walk func(Expr)
+	walk = func(e Expr) {
+		switch e := e.(type) {
+		case nil:
+		case *EIndex:
+			if id, isId := e.I.(*EIdent); isId && id.Name == v {
+				if found == nil {
+					found = e.X
+				} else if found.String() != e.X.String() {
+					ok = false
+				}
+				walk(e.X)
+				return
+			}
+			walk(e.X)
+			walk(e.I)
+		case *ESel:
+			walk(e.X)
+		case *ESlice:
+			walk(e.X)
+			walk(e.Lo)
+			walk(e.Hi)
+		case *ECall:
+			for _, a := range e.Args {
+				walk(a)
+			}
+		case *EUnary:
+			walk(e.X)
+		case *EBin:
+			walk(e.X)
+			walk(e.Y)
+		case *EQuant:
+			walk(e.Body)
+		case *EOld:
+			walk(e.X)
+		case *ECond:
+			walk(e.C)
+			walk(e.T)
+			walk(e.F)
+		}
+	}
+	walk(body)
+	if !ok {
+		return nil
+	}
+	return found
 }
 
 func (e *Env) expandDefine(d *DefineSpec, args []Expr) (Term, Ty) {
@@ -940,4 +1047,19 @@ func typeTextOf(e Expr) string {
 		}
 	}
 	return ""
+}
+
+// ghostBase returns the reference a ghost field of value base (spec expression x) is attached to.
+func (e *Env) ghostBase(base Term, x Expr, sel string) string {
+	switch base.Sort {
+	case SRef:
+		return base.S
+	case SIface:
+		return "(iref " + base.S + ")"
+	case SSlice:
+		return "(sarr " + base.S + ")"
+	}
+	// a struct value held in an addressable cell (e.g. a sync.Mutex field): use its address
+	a, _ := e.addrOf(x)
+	return a
 }
